@@ -73,7 +73,7 @@ class C04(Check):
     HEADER = "From Verif Require Import C04.Model."
     RUN = "run_case"
     N_QUICK = 1500
-    N_THOROUGH = 20000
+    N_THOROUGH = 30000
     RULE = ("systems of 1..3 ATP_Store objects; budget/GTP/NADH capacities from small sets incl. 0, max_debt incl. 0, "
             "debt_interest in {0,0.05,0.1,0.25,0.3,0.5,1.0}; histories of <=40 calls of consume (3 currencies, allow_debt, "
             "priorities around the gates 5 and 10), regenerate, transfer_to (incl. to itself), convert_nadh_to_atp, "
@@ -104,6 +104,9 @@ class C04(Check):
                    "debt_interest >= 0 (int(debt*rate) >= 0); with a negative rate `0 <= debt` is plainly false",
                    "single-threaded histories; on_state_change callback not supplied"]
 
+    _hangs = 0          # histories on which the implementation did not return
+    _gen_blind = False  # set when the implementation hung while steering the generator
+
     # -- generation --------------------------------------------------------
     def _rand_cfg(self, rng):
         return {"budget": rng.choice(BUDGETS), "gtp": rng.choice(GTPS), "nadh": rng.choice(NADHS),
@@ -131,53 +134,65 @@ class C04(Check):
             M = None
         out = []
         for _ in range(n):
-            ns = rng.choice([1, 1, 1, 2, 2, 3])
-            cfgs = [self._rand_cfg(rng) for _ in range(ns)]
-            if rng.random() < 0.08:
-                cfgs[0] = {"budget": 0, "gtp": 0, "nadh": rng.choice([0, 0, 3]), "max_debt": rng.choice([0, 10]), "rate": 0.1}
-            length = rng.choice([3, 6, 10, 15, 20, 30, 40])
-            ops = []
-            stores = None
-            if M is not None:
+            case = None
+            if M is not None and not C04._gen_blind:
                 try:
-                    stores = _mk_stores(M, cfgs)
-                except Exception:
-                    stores = None
-            for _k in range(length):
-                i = rng.randrange(ns)
-                snap = None
-                if stores is not None:
-                    try:
-                        snap = _snap(stores[i])
-                    except Exception:
-                        snap = None
-                r = rng.random()
-                t = rng.choice(["ATP", "ATP", "ATP", "GTP", "NADH"])
-                if r < 0.50:
-                    op = ["consume", i, self._amount(rng, snap, t, "consume"), t, rng.random() < 0.6, rng.choice(PRIOS)]
-                elif r < 0.62:
-                    op = ["regen", i, self._amount(rng, snap, t, "regen"), t]
-                elif r < 0.74:
-                    j = rng.randrange(ns)
-                    op = ["transfer", i, j, self._amount(rng, snap, t, "regen"), t]
-                elif r < 0.80:
-                    op = ["convert", i, rng.choice([0, 1, 2, 3, 5, 100])]
-                elif r < 0.85:
-                    op = ["dorm", i]
-                elif r < 0.90:
-                    op = ["wake", i]
-                elif r < 0.97:
-                    op = ["interest", i]
-                else:
-                    op = ["reset", i]
-                ops.append(op)
-                if stores is not None:
-                    try:
-                        _apply(M, stores, op)
-                    except Exception:
-                        pass
-            out.append({"stores": cfgs, "ops": ops})
+                    case = common.call_with_watchdog(lambda: self._gen_one(rng, M), 5.0)
+                except Exception:   # incl. Hang: stop steering by the implementation
+                    C04._gen_blind = True
+            if case is None:
+                case = self._gen_one(rng, None)
+            out.append(case)
         return out
+
+    def _gen_one(self, rng, M):
+        """One history; amounts are steered to boundaries of the state the real stores have reached."""
+        ns = rng.choice([1, 1, 1, 2, 2, 3])
+        cfgs = [self._rand_cfg(rng) for _ in range(ns)]
+        if rng.random() < 0.08:
+            cfgs[0] = {"budget": 0, "gtp": 0, "nadh": rng.choice([0, 0, 3]), "max_debt": rng.choice([0, 10]), "rate": 0.1}
+        length = rng.choice([3, 6, 10, 15, 20, 30, 40])
+        ops = []
+        stores = None
+        if M is not None:
+            try:
+                stores = _mk_stores(M, cfgs)
+            except Exception:
+                stores = None
+        for _k in range(length):
+            i = rng.randrange(ns)
+            snap = None
+            if stores is not None:
+                try:
+                    snap = _snap(stores[i])
+                except Exception:
+                    snap = None
+            r = rng.random()
+            t = rng.choice(["ATP", "ATP", "ATP", "GTP", "NADH"])
+            if r < 0.50:
+                op = ["consume", i, self._amount(rng, snap, t, "consume"), t, rng.random() < 0.6, rng.choice(PRIOS)]
+            elif r < 0.62:
+                op = ["regen", i, self._amount(rng, snap, t, "regen"), t]
+            elif r < 0.74:
+                j = rng.randrange(ns)
+                op = ["transfer", i, j, self._amount(rng, snap, t, "regen"), t]
+            elif r < 0.80:
+                op = ["convert", i, rng.choice([0, 1, 2, 3, 5, 100])]
+            elif r < 0.85:
+                op = ["dorm", i]
+            elif r < 0.90:
+                op = ["wake", i]
+            elif r < 0.97:
+                op = ["interest", i]
+            else:
+                op = ["reset", i]
+            ops.append(op)
+            if stores is not None:
+                try:
+                    _apply(M, stores, op)
+                except Exception:
+                    pass
+        return {"stores": cfgs, "ops": ops}
 
     def exhaustive_cases(self):
         cfgs = [{"budget": b, "gtp": 0, "nadh": nd, "max_debt": md, "rate": 1.0}
@@ -194,8 +209,13 @@ class C04(Check):
 
     # -- implementation ----------------------------------------------------
     def run_impl(self, case):
-        # one watchdog per history (a call that blocks on the store's lock is the observation [-999])
-        return common.call_with_watchdog(lambda: self._run_history(case), 20.0)
+        # one watchdog per history (a call that blocks on the store's lock is the observation [-999]);
+        # after a few hangs the patience drops so that a deadlocking tree is still reported quickly
+        try:
+            return common.call_with_watchdog(lambda: self._run_history(case), 5.0 if C04._hangs < 3 else 0.3)
+        except common.Hang:
+            C04._hangs += 1
+            raise
 
     def _run_history(self, case):
         from operon_ai.state import metabolism as M
